@@ -17,6 +17,8 @@ CONSTANTS NElem,      \* number of elements of the document
           NDoctypes,  \* size of the DOCTYPE line pool
           NTemplates, \* size of the pool of whole attribute lists (one valid list per object type, and each with one attribute damaged)
           ObjElems,   \* the elements that are <object>
+          NContents,  \* size of the pool of text contents
+          TextElems,  \* the elements that have a text content (<indexes>, <u64values>, <userdata>)
           MaxMut, SimLen
 VARIABLES muts
 
@@ -35,6 +37,8 @@ Mutations ==
   \cup {<<"doctype", v, 0, 0>> : v \in 1..NDoctypes}
   \* object e becomes an object of another type: its whole attribute list is replaced by template k
   \cup {<<"retype", e, k, 0>> : e \in ObjElems, k \in 1..NTemplates}
+  \* the text content of element e is replaced from a pool (numbers at the limits, long lists, typed indexes, garbage)
+  \cup {<<"setcontent", e, v, 0>> : e \in TextElems, v \in 1..NContents}
 
 \* only mutations that address something that exists
 Applicable(m) ==
@@ -47,7 +51,7 @@ Next == /\ Len(muts) < MaxMut
 Spec == Init /\ [][Next]_muts
 \* for simulation: one random applicable mutation per step, drawn component by component (TLC's simulator would otherwise build every
 \* successor of every step, and even the set of applicable mutations is large for documents with hundreds of elements)
-Kinds == {"dropattr", "setattr", "dupattr", "dupelem", "dropelem", "swapelems", "truncate", "setversion", "cutat", "doctype", "retype"}
+Kinds == {"dropattr", "setattr", "dupattr", "dupelem", "dropelem", "swapelems", "truncate", "setversion", "cutat", "doctype", "retype", "setcontent"}
 RandMut ==
   LET k == RandomElement(Kinds)
       e == RandomElement(1..NElem)   e2 == RandomElement(2..NElem)   f2 == RandomElement(2..NElem)
@@ -62,6 +66,7 @@ RandMut ==
        [] k = "setversion" -> <<k, RandomElement(1..NVers), 0, 0>>
        [] k = "doctype" -> <<k, RandomElement(1..NDoctypes), 0, 0>>
        [] k = "retype" /\ ObjElems # {} -> <<k, RandomElement(ObjElems), RandomElement(1..NTemplates), 0>>
+       [] k = "setcontent" /\ TextElems # {} -> <<k, RandomElement(TextElems), RandomElement(1..NContents), 0>>
        [] OTHER -> <<"dupelem", e2, 0, 0>>
 NextSim == /\ Len(muts) < MaxMut
            /\ muts' = Append(muts, RandMut)
